@@ -650,3 +650,14 @@ P('C20-A', 'C20', 'C20.R1'); P('C20-B', 'C20', 'C20.R1')
 # the refactoring that extends the language (see DESIGN 7.3) must at least not raise a false alarm or an analysis error
 CORPUS.append({'id': 'S/C06-B-silent', 'props': ['C02', 'C07', 'C09', 'C12', 'C14', 'C15', 'C18'], 'rule': None, 'expect': 'silent',
                'edits': [], 'patch': 'seeded/C06-B/patch.diff'})
+
+# ---- C07.R4 / R5
+M('c07-no-coercion', 'C07', 'C07.R4', AST, "            if isinstance(op1, str) and not isinstance(op2, str):\n                op2 = str(op2)\n", "")
+M('c07-coerce-right-string', 'C07', 'C07.R4', AST, "            if isinstance(op1, str) and not isinstance(op2, str):\n                op2 = str(op2)\n",
+  "            if isinstance(op1, str) and not isinstance(op2, str):\n                op2 = str(op2)\n            elif isinstance(op2, str) and not isinstance(op1, str):\n                op1 = str(op1)\n")
+M('c07-coerce-with-repr', 'C07', 'C07.R4', AST, "                op2 = str(op2)\n", "                op2 = repr(op2)\n")
+M('c07-assign-returns-value', 'C07', 'C07.R5', AST, "        state.names[self.name] = copy.deepcopy(value)\n        return None", "        state.names[self.name] = copy.deepcopy(value)\n        return value")
+M('c07-code-returns-first', 'C07', 'C07.R5', AST, "        res = None\n        for line in self.lines:\n            res = line.eval(state)\n\n        return res",
+  "        res = None\n        for line in self.lines:\n            value = line.eval(state)\n            if res is None:\n                res = value\n\n        return res")
+B('c07-coercion-rewritten', 'C07', AST, "            if isinstance(op1, str) and not isinstance(op2, str):\n                op2 = str(op2)\n            return op1 + op2",
+  "            if isinstance(op1, str) and not isinstance(op2, str):\n                return op1 + str(op2)\n            return op1 + op2")
